@@ -85,6 +85,10 @@ class BasePath(safe_str.safe_string):
         path = posixpath.normpath(path)
         if path == posixpath.curdir:
             path = ''
+        elif path.startswith('//'):
+            # POSIX keeps exactly two leading slashes; any UNC prefix has
+            # already been split off as the drive, so this is just '/'.
+            path = path[1:]
         return path, isdir
 
     @classmethod
